@@ -185,6 +185,8 @@ func checkC09(r *Report) {
 	nK := skipCounterRule(r, p, "C09.g/SKIP-COUNTER", "semver")
 	r.floor("C09.g/SKIP-COUNTER", "merge loops (inner index starting at the outer index + 1) in package semver", nK, 1)
 	boundsCopiedRule(r, p, "C09.i/BOUNDS-COPIED")
+	nPF := preFlagRule(r, p, "C09.k/PRE-FLAG")
+	r.floor("C09.k/PRE-FLAG", "sites where the prerelease tags of a bound are dropped or a copied bound is bumped", nPF, 6)
 	nNP := numsPaddedRule(r, p, "C09.j/NUMS-PADDED")
 	r.floor("C09.j/NUMS-PADDED", "same-numbers tests between two versions in package semver", nNP, 2)
 	nS := successorRule(r, p, "C09.h/SUCCESSOR")
@@ -716,6 +718,120 @@ func numsPaddedRule(r *Report, p *Prog, rule string) int {
 						n++
 						per++
 						r.bad(rule, fmt.Sprintf("%s: same-numbers test #%d pads", fnKey(f), per), p.pos(c.Pos()), "the number lists of two versions are compared with equalValues, which compares the lengths first: 1.2-alpha and 1.2.0-alpha, equal for compare, numsEqual, Intersect and canon, are different here, so a span admits or refuses a prerelease depending on how its bound (or the candidate) was written")
+					}
+				}
+			}
+		}
+	}
+	return n
+}
+
+// preFlagRule (C09.k PRE-FLAG): a Version carries its prerelease tags (pre) and
+// a flag (isPrerelease) that span.contains consults to admit prereleases whose
+// numbers equal a bound's. Version.clearPre drops the tags only (resetting the
+// flag there would break NuGet's "*-*"), so a bound whose tags were dropped
+// keeps admitting prereleases unless the flag is reset next to the call, and
+// canon, which looks at the tags, merges such a span with release-only spans.
+//
+//	(1) every clearPre call site is followed in its block by a store of false
+//	    into isPrerelease of the same version, or is on the reviewed list
+//	    (upper bounds whose numbers are then infinite, or equal the lower
+//	    bound's);
+//	(2) a bound made by copy() and a number bump (incN) outside Version.inc has
+//	    its tags dropped and its flag reset in the same function.
+var preFlagReviewed = map[string]string{
+	"semver.opVersionToSpan: clearPre #2": ">= bound: every number of hi has just been set to infinity, no candidate has these numbers",
+	"semver.opVersionToSpan: clearPre #3": "^0.0: the patch of hi is infinity",
+	"semver.opVersionToSpan: clearPre #4": "^0.x.y: the patch of hi is infinity, or (^0.0.z) hi has the numbers of lo, whose own tag already admits the same prereleases",
+	"semver.opVersionToSpan: clearPre #5": "^*: every number of hi is infinity",
+	"semver.opVersionToSpan: clearPre #6": "^x.y.z: minor and patch of hi are infinity",
+}
+
+func preFlagRule(r *Report, p *Prog, rule string) int {
+	flagReset := func(b *ssa.BasicBlock, after int, recv ssa.Value) bool {
+		for _, in := range b.Instrs[after+1:] {
+			st, ok := in.(*ssa.Store)
+			if !ok {
+				continue
+			}
+			fa, ok := st.Addr.(*ssa.FieldAddr)
+			if !ok || !sameVar(fa.X, recv) && fa.X != recv {
+				continue
+			}
+			pt, ok := fa.X.Type().Underlying().(*types.Pointer)
+			if !ok {
+				continue
+			}
+			stt, ok := pt.Elem().Underlying().(*types.Struct)
+			if !ok || stt.Field(fa.Field).Name() != "isPrerelease" {
+				continue
+			}
+			if c, ok := st.Val.(*ssa.Const); ok && c.Value != nil && c.Value.Kind() == constant.Bool && !constant.BoolVal(c.Value) {
+				return true
+			}
+		}
+		return false
+	}
+	n := 0
+	for _, f := range p.Funcs {
+		if f.Pkg == nil || f.Blocks == nil || f.Synthetic != "" || f.Pkg.Pkg.Path() != modPrefix+"semver" {
+			continue
+		}
+		if fnKey(f) == "(*semver.Version).clearPre" || fnKey(f) == "(*semver.Version).inc" {
+			continue
+		}
+		per := 0
+		for _, b := range f.Blocks {
+			for i, in := range b.Instrs {
+				c, ok := in.(*ssa.Call)
+				if !ok {
+					continue
+				}
+				switch staticCalleeName(c) {
+				case "(*semver.Version).clearPre":
+					n++
+					per++
+					key := fmt.Sprintf("%s: clearPre #%d", fnKey(f), per)
+					switch {
+					case flagReset(b, i, c.Common().Args[0]):
+						r.ok(rule, key, p.pos(c.Pos()), "followed by isPrerelease = false on the same version")
+					case preFlagReviewed[key] != "":
+						r.ok(rule, key, p.pos(c.Pos()), "reviewed: "+preFlagReviewed[key])
+					default:
+						r.bad(rule, key, p.pos(c.Pos()), "the prerelease tags of a bound are dropped but its isPrerelease flag is left set: span.contains consults the flag and keeps admitting prereleases with the bound's numbers, while canon, which looks at the tags, treats the span as release-only and merges it away")
+					}
+				case "(*semver.Version).incN":
+					recv := c.Common().Args[0]
+					cp, ok := recv.(*ssa.Call)
+					if !ok || staticCalleeName(cp) != "(*semver.Version).copy" {
+						continue
+					}
+					// once per copied bound
+					first := true
+					for _, b2 := range f.Blocks {
+						for _, in2 := range b2.Instrs {
+							if c2, ok := in2.(*ssa.Call); ok && c2 != c && staticCalleeName(c2) == "(*semver.Version).incN" && c2.Common().Args[0] == recv && c2.Pos() < c.Pos() {
+								first = false
+							}
+						}
+					}
+					if !first {
+						continue
+					}
+					n++
+					key := fmt.Sprintf("%s: bound made by copy and bump drops tags and flag", fnKey(f))
+					cleared := false
+					for _, b2 := range f.Blocks {
+						for j, in2 := range b2.Instrs {
+							if c2, ok := in2.(*ssa.Call); ok && staticCalleeName(c2) == "(*semver.Version).clearPre" && c2.Common().Args[0] == recv && flagReset(b2, j, recv) {
+								cleared = true
+							}
+						}
+					}
+					if cleared {
+						r.ok(rule, key, p.pos(c.Pos()), "clearPre and isPrerelease = false on the copied bound")
+					} else {
+						r.bad(rule, key, p.pos(c.Pos()), "an upper bound is made by copying the lower bound and bumping a number, and keeps the copy's prerelease tags and flag: [v1.5.0-rc.1:v2.0.0-rc.1) admits v2.0.0-alpha, a prerelease of the excluded next major version")
 					}
 				}
 			}
